@@ -35,6 +35,9 @@ def gen(rng, tier):
     # structure that comes from a file has no load definitions, only nodal loads)
     cases = [core.case_from_struct(shared_joint(rng), Weight=core.weights(i), Assemble=True, ViaPre=(i % 4 == 1)) for i in range(n1)]
     cases += [core.case_from_struct(G.gen_frame(rng, max_cells=2), Weight=core.weights(i), Assemble=True, ViaPre=(i % 4 == 1)) for i in range(n2)]
+    k = 4 if tier == "quick" else 60
+    cases += [core.case_from_struct(G.gen_doubled_tie(rng), Weight=core.weights(i), Assemble=True) for i in range(k)]
+    cases += [core.case_from_struct(G.with_unused_node(G.gen_frame(rng, max_cells=1) if i % 2 else shared_joint(rng), rng), Weight=False, Assemble=True) for i in range(k)]
     return cases
 
 
@@ -50,7 +53,7 @@ SPEC = {
     "stages": [("D", lambda c, o, rng: S.stageD_case(o, rng), S.stageD_v, 2, None),
                ("H", lambda c, o, rng: S.stageD_case(o, rng, nsample=0), S.stageH_v, 2, 24)],
     "nontrivial": lambda c, o: len(o["Bars"]) >= 2 and any((b.get("DL") or b.get("CL")) for b in o["Bars"]),
-    "rule": "joints where 2-4 bars (as start or end node, in any order) bring nodal and end-of-span loads to the same equations, and grid frames with all support and link kinds; own weight on every third; "
+    "rule": "twin pinned members between the same two free joints; definitions with a node no bar uses; joints where 2-4 bars (as start or end node, in any order) bring nodal and end-of-span loads to the same equations, and grid frames with all support and link kinds; own weight on every third; "
             "non-trivial iff >= 2 bars and some load; MakeSystemOfEquations is compared entry by entry with an independent exact re-assembly from the implementation's own slices (oracle) and with the Coq model (stage D)",
     "assumptions": ["inkmath SparseMat semantics modelled: AddToValue accumulates, SetZeroCol/SetIdentityRow as in v0.2.6 (external library)",
                     "the fast map-based evaluation of the model's matrix is cross-checked inside Coq against the definitional k_final on sampled entries"],
